@@ -77,6 +77,17 @@ func genC22(seed uint64) *Plan {
 		}
 		g.fault(f)
 	}
+	if g.pct(25) {
+		// a long throttle whose connection is reset while the client honours
+		// it and still has a (delayed) response outstanding on it: requests
+		// queued behind the throttle must not sleep it out on a connection
+		// the client knows is gone
+		for i := 0; i < int(g.rng(1, 2)); i++ {
+			n := int(g.rng(2, 12))
+			g.fault(Fault{Kind: "throttle", Broker: -1, Key: -1, Nth: n, Arg: g.pick(30000, 60000, 120000), DurMs: g.pick(300, 1000, 3000)})
+			g.fault(Fault{Kind: "delay_resp", Broker: -1, Key: -1, Nth: n + 1, DurMs: 20000})
+		}
+	}
 	return g.P
 }
 
